@@ -11,7 +11,7 @@
 (***************************************************************************)
 EXTENDS DavTree
 
-CONSTANTS Clients, Names, MaxOps, OwnDepth
+CONSTANTS Clients, Names, MaxOps, OwnDepth, MaxTotal   \* MaxTotal bounds the number of requests of all clients together
 
 Base(m, p) == [m |-> m, p |-> p, pflag |-> "ok", c |-> "", cn |-> 0, fault |-> FALSE, fk |-> 0,
                dform |-> "na", dp |-> << >>, depth |-> "absent", ow |-> "absent", ctype |-> "none",
@@ -30,7 +30,9 @@ VARIABLES tree, hist     \* hist[c]: sequence of [r, st, sub] observed by client
 vars == <<tree, hist>>
 
 Init == tree = Init0 /\ hist = [c \in Clients |-> << >>]
-Step(c) == /\ Len(hist[c]) < MaxOps
+RECURSIVE Total(_, _)
+Total(h, S) == IF S = {} THEN 0 ELSE LET c == CHOOSE x \in S : TRUE IN Len(h[c]) + Total(h, S \ {c})
+Step(c) == /\ Len(hist[c]) < MaxOps /\ Total(hist, Clients) < MaxTotal
            /\ \E r \in ReqsOf(c) : \E o \in Outcomes(tree, r) :
                 /\ tree' = o.t
                 /\ hist' = [hist EXCEPT ![c] = Append(@, [r |-> r, st |-> o.st, sub |-> Sub(o.t, c)])]
